@@ -30,7 +30,7 @@ CHECKS = {
     "C04": ("fault_enumeration",
             "fault enumeration over cheater subsets x fault kinds x detection modes against a scalar reference model",
             "Per generated session every non-empty cheater subset (|S|<=5) with eight fault kinds and a cancelling variant is judged in Disabled/FirstCheater/AllCheaters and standalone "
-            "share verification against the model cheaters={i|submitted!=honest}, delta=sum(submitted-honest); Taproot parity combinations are forced.",
+            "share verification against the model cheaters={i|submitted!=honest}, delta=sum(submitted-honest); Taproot parity combinations are forced; per session also a re-randomized and (Taproot) a tweaked session through their own aggregation entry points.",
             "Honest shares are those produced by the library's own sign (their correctness is C01/C02). Larger signer sets are sampled.",
             "DESIGN.md §4 C04"),
     "C05": ("fault_enumeration",
@@ -124,7 +124,7 @@ CHECKS = {
             "DESIGN.md §4 C18"),
     "C19": ("exploration",
             "property-based testing of batch verification against the per-item oracle incl. crafted cancelling pairs",
-            "Generated batches (size 0..64, shared/distinct keys and messages) with invalid items of six kinds at generated positions and complementary pairs whose errors cancel in an unblinded sum: "
+            "Generated batches (size 0..64, shared/distinct keys and messages) with invalid items of six kinds at generated positions and complementary pairs whose errors cancel in an unblinded sum (also with one response exactly zero, also at the head of the queue): "
             "Verifier::verify must be Ok iff every item verifies individually; empty batch rejected; Item::verify_single agrees with ordinary and independent verification.",
             "The ~2^-128 soundness error is taken on faith (a wrongly accepted batch is re-run under a second tape before being reported).",
             "DESIGN.md §4 C19"),
